@@ -24,6 +24,7 @@ type roP struct {
 	Calls   int  `json:"calls"` // calls against the read-only instance
 	NoWBE   bool `json:"nowbe"`
 	NoIndex bool `json:"noindex"` // open over the tape alone: building the missing index is the one permitted change
+	Stale   bool `json:"stale"`   // the index exists but reflects only an earlier part of the tape (an older copy of the index): it must be left as it is
 }
 
 func roCases(prop, tier string, seed uint64) []Case {
@@ -35,7 +36,7 @@ func roCases(prop, tier string, seed uint64) []Case {
 	cfgs := someCfgs(r, 8)
 	var cases []Case
 	for i := 0; i < n; i++ {
-		p := roP{Cfg: cfgs[i%len(cfgs)], Pop: 10 + r.Intn(14), Calls: calls/2 + r.Intn(calls/2+1), NoWBE: i%2 == 1, NoIndex: i%5 == 4}
+		p := roP{Cfg: cfgs[i%len(cfgs)], Pop: 10 + r.Intn(14), Calls: calls/2 + r.Intn(calls/2+1), NoWBE: i%2 == 1, NoIndex: i%5 == 4, Stale: i%5 == 2}
 		pb, _ := json.Marshal(p)
 		cases = append(cases, Case{ID: fmt.Sprintf("c15-%04d", i), Seed: subSeed(seed, prop, tier, fmt.Sprint(i)), Kind: "random", P: pb})
 	}
@@ -125,6 +126,36 @@ func roRun(prop, tier string, c Case, w *Worker) (res Result) {
 		res.Verdict, res.Msg = "inconclusive", err.Error()
 		return
 	}
+	if p.Stale && !p.NoIndex {
+		img, err := os.ReadFile(tapeDir(src) + "/drive.tar")
+		if err == nil {
+			if recs, _, err := ScanTape(img, cfg, &cryptoView{EncIdentity: wr.RC.Identity}); err == nil && len(recs) >= 4 {
+				sd := w.NewDir("c15stale")
+				_ = os.MkdirAll(tapeDir(sd), 0o777)
+				if err := os.WriteFile(tapeDir(sd)+"/drive.tar", img[:recs[len(recs)/2].Off], 0o666); err == nil {
+					if sr, err := NewRig(sd, cfg); err == nil {
+						ierr := runIndex(sr, true)
+						sr.Close()
+						if ierr == nil {
+							for _, d := range []string{rod, twd} {
+								if err := copyFile(sd+"/index.sqlite", d+"/index.sqlite"); err != nil {
+									res.Verdict, res.Msg = "inconclusive", err.Error()
+									return
+								}
+							}
+							res.count("stale_index_cases", 1)
+						}
+					}
+				}
+			}
+		}
+	}
+	var rowsAtStart string
+	if !p.NoIndex {
+		if rows0, err := DumpRows(rod + "/index.sqlite"); err == nil {
+			rowsAtStart = RowsDigest(rows0)
+		}
+	}
 	rocfg := cfg
 	rocfg.ReadOnly = true
 	rocfg.NoWriteBE = p.NoWBE
@@ -134,6 +165,8 @@ func roRun(prop, tier string, c Case, w *Worker) (res Result) {
 	}
 	if p.NoIndex {
 		variant += "+index-absent"
+	} else if p.Stale {
+		variant += "+index-older-than-tape"
 	}
 	res.setAdd("variants", variant)
 	tapeBefore := fileDigest(tapeDir(rod) + "/drive.tar")
@@ -173,6 +206,10 @@ func roRun(prop, tier string, c Case, w *Worker) (res Result) {
 		return
 	}
 	rowsD := RowsDigest(rowsBefore)
+	if rowsAtStart != "" && rowsD != rowsAtStart {
+		viol("index-changed|initialize", "the index existed (and had a root) before the read-only instance was opened; Initialize changed its rows")
+		return
+	}
 	// beyond the rows: the index file's bytes, the drive file's metadata and the set of files in the instance directory
 	dbBytes := fileDigest(ro.DB)
 	driveStat := statLine(ro.Drive)
@@ -484,6 +521,6 @@ func listNames(f afero.Fs, p string) ([]string, error) {
 func init() {
 	register(&Engine{Name: "readonly", Props: []string{"C15"}, Cases: roCases, Run: roRun})
 	propMeta["C15"] = PropMeta{Level: "exploration",
-		Rule:        "per case a tape+index is populated by a generated history through a writable instance; a read-only instance (variant A: write backend and cache factory present, variant B: none, as `serve http` composes it; every fifth case without an index so that it is built on open) and a writable twin are opened over copies; then 20-60 random calls mixing every mutating method, OpenFile with every flag combination followed by Write/WriteAt/WriteString/Truncate on the handle, and read calls; after every call sha-256(tape) and the full row dump are compared with their values after Initialize, mutators must fail with a permission error, read results must equal the twin's; non-trivial = at least 3 entries on the tape and at least 10 mutating calls; distinct = distinct (configuration, variant, call list); argument shapes include '', ' ', '.', './' as names (also as second argument of Rename / Symlink)",
+		Rule:        "per case a tape+index is populated by a generated history through a writable instance; a read-only instance (variant A: write backend and cache factory present, variant B: none, as `serve http` composes it; every fifth case without an index so that it is built on open) and a writable twin are opened over copies; then 20-60 random calls mixing every mutating method, OpenFile with every flag combination followed by Write/WriteAt/WriteString/Truncate on the handle, and read calls; after every call sha-256(tape) and the full row dump are compared with their values after Initialize, mutators must fail with a permission error, read results must equal the twin's; non-trivial = at least 3 entries on the tape and at least 10 mutating calls; distinct = distinct (configuration, variant, call list); argument shapes include '', ' ', '.', './' as names (also as second argument of Rename / Symlink); a fifth of the cases open over an index that is OLDER than the tape (it reflects only the first half of the records): such an index must be left exactly as it is (rows compared from before the open)",
 		Assumptions: []string{"building a missing index during Initialize is the permitted change; the tape hash is pinned across it too", "OpenFile of a missing path must fail (any error class) and create nothing"}}
 }
